@@ -29,10 +29,13 @@ type cpuRig struct {
 	decoy *machine.Machine // never stepped; see newCPURig
 }
 
-func newCPURig() *cpuRig {
+func newCPURig() *cpuRig { return newCPURigOpt(false) }
+
+// newCPURigOpt: debug = the emulator's CPU trace (Config.DebugCPU) switched on; the caller silences stdout.
+func newCPURigOpt(debug bool) *cpuRig {
 	r := &cpuRig{}
 	// MBC1+RAM+BATTERY, 64 KiB ROM, 32 KiB RAM: A000-BFFF is real memory
-	r.m = machine.New(machine.Cart(0x03, 1, 3), machine.Options{})
+	r.m = machine.New(machine.Cart(0x03, 1, 3), machine.Options{DebugCPU: debug})
 	r.m.M.Write(0x0000, 0x0a) // enable cartridge RAM
 	r.m.QuietLCD()
 	r.m.I.Disable()
@@ -119,13 +122,29 @@ func okState(pre []int, ob []int) bool {
 // unit executes one instruction from the given state. placed = data bytes to
 // put at addresses before running.
 func (r *cpuRig) unit(pre []int, ob []int, placed [][]int) []any {
-	return r.unitKey(pre, ob, placed, -1)
+	return r.unitOpt(pre, ob, placed, -1, -1)
+}
+
+func (r *cpuRig) unitKey(pre []int, ob []int, placed [][]int, keyAfter int) []any {
+	return r.unitOpt(pre, ob, placed, keyAfter, -1)
 }
 
 // unitKey: as unit; a key event (what the display's callback does: CPU.OnInput) arrives after machine cycle keyAfter
 // of the instruction (-1: never). It ends STOP and nothing else: an instruction under way is not disturbed.
-func (r *cpuRig) unitKey(pre []int, ob []int, placed [][]int, keyAfter int) []any {
+// dmaPage >= 0: an OAM DMA from that page is started right before the instruction and is still running while it
+// executes (the CPU of this emulator is not held up by a DMA; the property states instruction lengths without exception).
+// Any transfer an earlier unit started (LDH (46),A ...) is run to its end first, so that units do not depend on each other.
+func (r *cpuRig) unitOpt(pre []int, ob []int, placed [][]int, keyAfter, dmaPage int) []any {
 	m := r.m
+	for i := 0; i < 200; i++ {
+		if busy, _ := m.O.VerifDMA(); !busy {
+			break
+		}
+		m.M.EndMachineCycle()
+	}
+	if dmaPage >= 0 {
+		m.M.Write(0xff46, uint8(dmaPage))
+	}
 	for i := 0; i < 3; i++ {
 		r.poke(pre[9]+i, ob[i])
 	}
@@ -157,7 +176,7 @@ func (r *cpuRig) unitKey(pre []int, ob []int, placed [][]int, keyAfter int) []an
 	if bus == nil {
 		bus = [][]int{}
 	}
-	return []any{1, pre, ob, bus, post, n, runState(m.CPU.VerifGet()), keyAfter}
+	return []any{1, pre, ob, bus, post, n, runState(m.CPU.VerifGet()), keyAfter, dmaPage}
 }
 
 // runState: 1 halted, 2 stopped, 4 halt bug armed - what decides whether the CPU goes on fetching
@@ -692,6 +711,45 @@ func cpuGen(c *Ctx) {
 		}
 		e.flush()
 	}
+	if c.Want("dma") {
+		// every opcode while an OAM DMA is under way (source in work RAM, cartridge ROM, video RAM - the same or another
+		// bus as the code, which runs from work RAM)
+		rng := c.Rand(114)
+		e := em("dma")
+		for _, o := range ops {
+			for _, page := range []int{0xc1, 0x20, 0x80} {
+				if !thorough && (o.op+page)%2 == 1 {
+					continue
+				}
+				ob := opBytes(o.op, o.cb, rng.Intn(256), 0xd0+rng.Intn(8))
+				pre := draw(rng, ob, func() []int { return regionRegs(rng, 0xd000, 0xdd00) })
+				e.add(rig.unitOpt(pre, ob, place(rng, pre, ob), -1, page))
+			}
+		}
+		e.flush()
+	}
+	if c.Want("dbg") {
+		// the same instructions with the emulator's own CPU trace switched on (Config.DebugCPU): printing what an
+		// instruction is about to do must not touch the bus. The trace goes to stdout, which is silenced meanwhile.
+		rng := c.Rand(113)
+		stdout := os.Stdout
+		if null, err := os.OpenFile(os.DevNull, os.O_WRONLY, 0); err == nil {
+			os.Stdout = null
+			drig := newCPURigOpt(true)
+			e := em("dbg")
+			for _, o := range ops {
+				for rep := 0; rep < 2; rep++ {
+					ob := opBytes(o.op, o.cb, rng.Intn(256), 0xd0+rng.Intn(8))
+					pre := draw(rng, ob, func() []int { return regionRegs(rng, 0xd000, 0xdd00) })
+					e.add(drig.unit(pre, ob, place(rng, pre, ob)))
+				}
+			}
+			os.Stdout = stdout
+			null.Close()
+			e.flush()
+			rig = newCPURig() // the bus observer belongs to the last rig built
+		}
+	}
 	if c.Want("keys") {
 		// a key event in the middle of an instruction (after its k-th machine cycle, every k in turn)
 		rng := c.Rand(112)
@@ -860,7 +918,20 @@ func cpuRerun(c *Ctx) {
 	}
 	rig := newCPURig()
 	w := trace.NewWriter(c.Out, "cpu-rerun", 1<<30)
+	stdout := os.Stdout
+	null, _ := os.OpenFile(os.DevNull, os.O_WRONLY, 0)
+	dbg := false
 	for _, s := range scs {
+		// scenarios of the dbg family ran with the CPU trace on (stdout silenced): the same again
+		if want := strings.HasPrefix(s.ID, "cpu-dbg-"); want != dbg && null != nil {
+			dbg = want
+			rig = newCPURigOpt(dbg)
+		}
+		if dbg {
+			os.Stdout = null
+		} else {
+			os.Stdout = stdout
+		}
 		if rm, ok := s.Reset.(map[string]any); ok && rm["seq"] != nil {
 			w.Put(rig.runSeq(s.ID, trace.Ints(rm["regs"]), trace.Int(rm["base"]), trace.Ints(rm["code"]), int64(trace.Int(rm["dseed"])), trace.Int(rm["units"])))
 			continue
@@ -883,7 +954,11 @@ func cpuRerun(c *Ctx) {
 				if len(e) > 7 {
 					key = trace.Int(e[7])
 				}
-				out.Ev = append(out.Ev, rig.unitKey(pre, ob, placed, key))
+				dma := -1
+				if len(e) > 8 {
+					dma = trace.Int(e[8])
+				}
+				out.Ev = append(out.Ev, rig.unitOpt(pre, ob, placed, key, dma))
 			case 2:
 				var sched [][]any
 				for _, p := range e[3].([]any) {
@@ -897,6 +972,7 @@ func cpuRerun(c *Ctx) {
 		}
 		w.Put(out)
 	}
+	os.Stdout = stdout
 	w.Close()
 }
 
